@@ -347,7 +347,9 @@ def parse_header_like_read(hdr):
 
 
 # --------------------------------------------------------------------------- (5) read_geqdsk
-def run_read_geqdsk(nx, ny, with_wall):
+def run_read_geqdsk(nx, ny, with_wall, settings=None):
+    settings = dict(x=1) if settings is None else settings
+
     def run(ctx):
         from hypnotoad.cases import tokamak as T
         from hypnotoad.geqdsk import _geqdsk as G
@@ -370,8 +372,12 @@ def run_read_geqdsk(nx, ny, with_wall):
         fh = io.StringIO("THE GEQDSK TEXT\nline 2\n")
         fh.read()  # the reader leaves the handle at the end
         fh.name = "some.geqdsk"
-        with patched((G, "read", lambda f: (captured.setdefault("fh", f), data)[1]), (T.TokamakEquilibrium, "__init__", fake_init)):
-            res = T.read_geqdsk(fh, settings=dict(x=1))
+        def fake_read(f, *a, **kw):
+            captured["fh"], captured["read_args"] = f, (a, kw)
+            return data
+
+        with patched((G, "read", fake_read), (T.TokamakEquilibrium, "__init__", fake_init)):
+            res = T.read_geqdsk(fh, settings=dict(settings))
         with spec_mode():
             R1D, Z1D, psi2D, psi1D, fpol = captured["a"][:5]
             k = captured["k"]
@@ -393,7 +399,9 @@ def run_read_geqdsk(nx, ny, with_wall):
             else:
                 ctx.oblige(TRUE(k["wall"] is None), "no limiter -> wall None")
             ctx.oblige(TRUE(res.geqdsk_input == "THE GEQDSK TEXT\nline 2\n" and res.geqdsk_filename == "some.geqdsk"), "stores the complete file text (after seek(0)) and the file name")
-            ctx.oblige(TRUE(k["settings"] == dict(x=1) and k["make_regions"] is True), "settings passed through")
+            ctx.oblige(TRUE(k["settings"] == dict(settings) and k["make_regions"] is True), "settings passed through")
+            ra, rk = captured["read_args"]
+            ctx.oblige(TRUE(not ra and rk.get("cocos", 1) == 1), "the file is read in its own flux convention (cocos 1): sign / 2 pi conversions are done once, by the constructor's options")
 
     return run
 
@@ -412,3 +420,4 @@ def build(S):
         S.contract("read_geqdsk[3x4,wall]", FN_RG, run_read_geqdsk(3, 4, True), shape="nx=3, ny=4")
         S.contract("read_geqdsk[2x2,nowall]", FN_RG, run_read_geqdsk(2, 2, False), shape="nx=2, ny=2")
         S.contract("read_geqdsk[5x3,wall]", FN_RG, run_read_geqdsk(5, 3, True), shape="nx=5, ny=3")
+        S.contract("read_geqdsk[2x3,psi_divide_twopi+reverse_current]", FN_RG, run_read_geqdsk(2, 3, True, settings=dict(psi_divide_twopi=True, reverse_current=True)), shape="nx=2, ny=3")
